@@ -42,13 +42,16 @@ SetSame(i) == present[i] /\ Do("same", i, "", present, gen)
 \* value-level: x.f = v : in place when present (identity kept or replaced: not prescribed), created when absent
 SetValue(i) == /\ Slots[i].val
                /\ Do("vset", i, "", [present EXCEPT ![i] = TRUE], [gen EXCEPT ![i] = IF present[i] THEN gen[i] ELSE nextGen])
+\* the same with an edge value of the type (zero, empty string): must still be "a value", not "absent"
+SetValueEdge(i) == /\ Slots[i].val
+                   /\ Do("vsetedge", i, "", [present EXCEPT ![i] = TRUE], [gen EXCEPT ![i] = IF present[i] THEN gen[i] ELSE nextGen])
 ClearValue(i) == /\ Slots[i].val /\ Slots[i].kind = "opt"
                  /\ Do("vclear", i, "", [present EXCEPT ![i] = FALSE], [gen EXCEPT ![i] = 0])
 \* a node that already lives in a document (this one or another) must be refused
 Attached(i, src) == WithAttached /\ Do("attached-" \o src, i, "ValueError", present, gen)
 
 Next == \E i \in 1..N :
-           \/ SetNode(i) \/ ClearNode(i) \/ SetSame(i) \/ SetValue(i) \/ ClearValue(i)
+           \/ SetNode(i) \/ ClearNode(i) \/ SetSame(i) \/ SetValue(i) \/ SetValueEdge(i) \/ ClearValue(i)
            \/ \E src \in {"same", "other"} : Attached(i, src)
 
 Init == \E c \in DOMAIN Classes : \E k \in 1..Len(Classes[c].inits) :
